@@ -22,7 +22,12 @@ CFG = {
                  "and counted. "
                  "compile: one case per generated template body (statement trees of Spec/Stmt.v printed as template source): "
                  "Model/Compile.v `compile` vs the REAL compiler's listing BEFORE Chunk::optimize (hook tera::verif::chunk_listings), "
-                 "instruction by instruction incl. every back-patched jump target; non-trivial = >= 2 jump instructions. "
+                 "instruction by instruction incl. every back-patched jump target; non-trivial = >= 2 jump instructions. Besides the libraries shared "
+                 "with `ref`, 160 (quick) / 700 (thorough) extra bodies whose expressions use the EXTENDED forms of the port (tags x:*): arithmetic "
+                 "+ - * / // % **, comparisons < <= > >= !=, `~`, `in` / `not in`, unary minus, the ternary, subscripts and slices (every combination "
+                 "of absent operands, plain and optional `?[`), optional attributes `?.`, function calls with 0/1 keyword argument, array and map "
+                 "literals with spreads and bool/int/string keys (never literal-only: the parser folds those to constants); these are compared as "
+                 "listings only (World0 has no arithmetic, so they are not in `ref`); non-trivial there additionally requires an extended form. "
                  "ref: one case per (generated library of 1-3 templates with includes, context, global context via tera.global_context()): "
                  "the reference interpreter Spec/Stmt.v `render` vs tera.render (text; errors as a class), and inside Coq the compiled "
                  "library on Model/VM.v vs the reference interpreter (the statement of compile_correct, evaluated). Generator: mostly bound "
@@ -60,11 +65,19 @@ CFG = {
         "iteration over maps built at run time (HashMap order unknown to the model) is only generated behind sort/length or on single-entry maps",
         "compile_correct hypotheses: non-failing appending writer (C18 owns failing writers); kwargs keys are strings; filters do not read "
         "the VM state; trees are what the parser accepts (Compile.wf_stmt: break/continue in a loop and not across a capture, loop.* inside "
-        "a for, user variables not named __tera_context/__tera_loop_*); includes point forward in the library list (acyclic, C11)",
+        "a for, user variables not named __tera_context/__tera_loop_*); includes point forward in the library list (acyclic, C11). "
+        "Expression forms compile_correct covers: constants, variables, loop.*, attributes (plain / optional), not/and/or, all binary operators, "
+        "unary minus, ternary, subscripts and slices (plain / optional), tests, filters and function calls with kwargs; the meaning of an operator / subscript / slice "
+        "on two values is a parameter of the reference interpreter (builtins b_binop, b_neg, b_subscript, b_slice = what the VM model does for the "
+        "instruction; C13/C14/C15 own them): proved are evaluation order, error propagation, short-circuit and single-branch evaluation. "
+        "Function calls with kwargs are covered as well (b_function; extra world hypothesis: functions do not read the VM state, true of World0 and World1; "
+        "`super()` is excluded by wf_expr). Array and map literals are ported and listing-checked (Model/Compile.v, `compile` family) but EXCLUDED from "
+        "compile_correct by wf_expr",
         "the statement-tree printer of the harness (tree -> template source and tree -> Gallina term) is trusted to print the same tree; "
         "the `compile` family would expose a divergence as a listing mismatch",
     ],
-    "modelled": ["parsing/compiler.rs compile_node/compile_expr/compile_kwargs for the statement language of Spec/Stmt.v (Model/Compile.v)",
+    "modelled": ["parsing/compiler.rs compile_node/compile_expr/compile_kwargs/compile_map_entries for the statement language of Spec/Stmt.v (Model/Compile.v): "
+                 "every Expression arm except ListComprehension and ComponentCall, every Node arm except blocks/extends/component definitions",
                  "vm/interpreter.rs interpret (all 56 instructions), render_include, render_component (shape), render_to",
                  "vm/state.rs get_value, store_local/global, dump_context; vm/for_loop.rs ForLoop, iterators, loop.*"],
     "assumptions": ["fuel 6000 steps per render in the model (vm family), 20000 (ref family, compiled library on the VM), 30000 (vm1)",
@@ -76,7 +89,8 @@ MANIFEST = (
     "Rocq proof: compiler port + VM port refine a documentation-level reference interpreter (compile_correct, all statement trees); four correspondences (VM on real chunks in the toy world and in the full world World1 incl. the engine's snapshot corpus, compiler listings, reference vs engine)",
     "Theorems state the documented scoping order, the loop.* counters for every container and every iteration, and where assignments live, "
     "for all states of the Gallina port of the VM; compile_correct: for every library of statement trees (if/elif/else, for/else over arrays, "
-    "strings, maps, break/continue, set/set_global, set blocks, filter sections, includes; any nesting), every context/global context, the "
+    "strings, maps, break/continue, set/set_global, set blocks, filter sections, includes; any nesting; expressions with every binary operator, "
+    "unary minus, ternary, subscripts, slices, optional chaining, tests, filters and function calls with kwargs), every context/global context, the "
     "compiled code (port of compile_node with back-patched targets) run on the VM port yields exactly the reference interpreter's text or both "
     "fail (induction on statements with a code-at-pc invariant, on items for loops, on the library for includes; exact fuel accounting). "
     "Run-level: include_state_is_fresh, nothing_survives_render for every chunk. Partial: capture exactness is proved for compiled bodies, "
